@@ -87,6 +87,20 @@ def gen_case(rng, size=1.0):
                             b = mk(rng.randrange(0, max(1, L - 100)), 100, FLAG_SEC if rng.random() < 0.5 else FLAG_SUPP)
                             if b:
                                 alns.append(b)
+    bx_cutoff = None
+    if rng.random() < 0.3:
+        # linked reads: barcodes are shared by molecules of DIFFERENT haplotypes that lie further apart than the
+        # linked-read distance cutoff (windows of 4*cutoff, only reads starting in the first quarter carry a barcode),
+        # so read clouds must respect the cutoff in both directions
+        bx_cutoff = rng.choice([80, 120, 200])
+        W = 4 * bx_cutoff
+        bx_of = {}
+        for a in alns:
+            if a["name"] not in bx_of:
+                w, off = divmod(a["start"], W)
+                bx_of[a["name"]] = f"{a['sample']}_b{(w + a['hap']) % 2}" if off < bx_cutoff else None
+            if bx_of[a["name"]] is not None:
+                a["tags"].append(["BX", bx_of[a["name"]]])
     source = "phase" if rng.random() < 0.6 else "custom"
     unphase = rng.choice(["cli", "cli", "cli", "partial", "partial", "none"])
     hist = {"source": source, "unphase": unphase, "foreign": unphase == "partial" and rng.random() < 0.4,
@@ -116,7 +130,7 @@ def gen_case(rng, size=1.0):
                 blocks[s][c] = out
         hist["blocks"] = blocks
     return {"kind": "c17", "contigs": contigs, "variants": variants, "samples": samples, "haps": haps, "alns": alns,
-            "read_groups": read_groups, "history": hist, "gaps": gaps}
+            "read_groups": read_groups, "history": hist, "gaps": gaps, "bx_cutoff": bx_cutoff}
 
 
 def write_vcf(case, path, calls):
